@@ -346,6 +346,7 @@ pub struct Stats {
     pub verify_backoffs: u64,
     pub verify_unlinked: u64,
     pub verify_unlinked_other: u64,
+    pub mid_flush_probes: u64,
     pub ingests: u64,
     pub max_levels: usize,
     pub max_files: usize,
@@ -423,6 +424,29 @@ pub fn rd_predicate(levels: &[Vec<SstMetadata>]) -> bool {
         }
     }
     false
+}
+
+thread_local! {
+    /// The harness whose flush is in progress on this thread (for the mid-flush yield points).
+    static MID_FLUSH: std::cell::Cell<*mut ()> = const { std::cell::Cell::new(std::ptr::null_mut()) };
+    static MID_FLUSH_FAIL: std::cell::RefCell<Option<Fail>> = const { std::cell::RefCell::new(None) };
+}
+
+/// Installed as the store's yield hook while the step driver runs a memtable flush.
+fn mid_flush_hook(site: u32) {
+    if site != 5 && site != 6 {
+        return;
+    }
+    let p = MID_FLUSH.with(|c| c.get());
+    if p.is_null() || MID_FLUSH_FAIL.with(|c| c.borrow().is_some()) {
+        return;
+    }
+    // SAFETY: set by Harness::flush on this thread for the duration of the memtable_thread call,
+    // which is the only thing that runs meanwhile; the probe only reads through the store's API.
+    let h: &mut Harness<'static> = unsafe { &mut *(p as *mut Harness<'static>) };
+    if let Err(f) = h.mid_flush_probe(site) {
+        MID_FLUSH_FAIL.with(|c| *c.borrow_mut() = Some(f));
+    }
 }
 
 /// Every entry of one sst file, in order.
@@ -830,11 +854,45 @@ impl<'a> Harness<'a> {
         Ok(false)
     }
 
+    /// Reads in the middle of a memtable flush (guard-only yield points 5 and 6 of the store): at 5
+    /// the flushed data lives only in the immutable memtable, at 6 it is in the immutable memtable
+    /// AND in the freshly ingested sst.
+    fn mid_flush_probe(&mut self, site: u32) -> Result<(), Fail> {
+        self.stats.mid_flush_probes += 1;
+        let what = if site == 5 { "the memtable switch of a flush (data in the immutable memtable only)" } else { "the ingest of a flush (data in the immutable memtable and in the new sst)" };
+        if self.probes.reads {
+            self.check_reads(what)?;
+        }
+        if self.probes.scans {
+            let got = self.full_scan().map_err(|e| fail("op-error:scan", format!("full scan during {what} failed: {e}")))?;
+            let want: Vec<(Vec<u8>, Option<Vec<u8>>)> = self.model.iter().filter(|(_, v)| v.is_some()).map(|(k, v)| (k.clone(), v.clone())).collect();
+            if got != want {
+                let gk: Vec<String> = got.iter().map(|(k, _)| gens::show(k)).collect();
+                let wk: Vec<String> = want.iter().map(|(k, _)| gens::show(k)).collect();
+                return Err(fail("scan:mid-flush", format!("a full scan during {what} returned {} entries {:?}, the live keys are {} {:?} (or values differ)", got.len(), vcore::truncate(&format!("{gk:?}"), 300), want.len(), vcore::truncate(&format!("{wk:?}"), 300))));
+            }
+        }
+        Ok(())
+    }
+
     fn flush(&mut self) -> Result<(), Fail> {
         if !self.relieve_stall()? {
             return Ok(());
         }
+        let probe = self.probes.reads || self.probes.scans;
+        if probe {
+            MID_FLUSH.with(|c| c.set(self as *mut Harness<'a> as *mut ()));
+            MID_FLUSH_FAIL.with(|c| *c.borrow_mut() = None);
+            lsmtk::verif::set_yield_hook(Some(mid_flush_hook));
+        }
         let r = self.kvs.as_ref().unwrap().memtable_thread();
+        if probe {
+            lsmtk::verif::set_yield_hook(None);
+            MID_FLUSH.with(|c| c.set(std::ptr::null_mut()));
+            if let Some(f) = MID_FLUSH_FAIL.with(|c| c.borrow_mut().take()) {
+                return Err(f);
+            }
+        }
         r.map_err(|e| fail("op-error:flush", format!("flush step failed: {e:?}")))?;
         if !lsmtk::verif::last_idle() {
             self.stats.flushes += 1;
@@ -1548,6 +1606,9 @@ pub fn label_stats(o: &mut Outcome, s: &Stats) {
     }
     if s.verify_unlinked > 0 {
         o.label("verifier-unlinked-files");
+    }
+    if s.mid_flush_probes > 0 {
+        o.label("read-in-the-middle-of-a-flush");
     }
     if s.verify_unlinked_other > 0 {
         o.label("verifier-unlinked-non-sst-trash");
